@@ -32,4 +32,14 @@ let () =
         (if finished s then 1 else 0) (int_of_nat d) (int_of_nat p) (if int_of_nat l = 0 then 1 else 0)
         (match int_of_nat tp with 3 -> 4 | 2 -> 2 | _ -> 1) steps.(0) steps.(1)
         (String.concat "" (List.map (fun c -> " " ^ string_of_int (int_of_z c)) ch))
+    | "ops" :: n :: root :: me :: ops ->
+      let n = int_of_string n and root = int_of_string root and me = int_of_string me in
+      let arg t = z_of_int (int_of_string (String.sub t 1 (String.length t - 1))) in
+      let op t = match t.[0] with
+        | 'R' -> Some OReady | 'T' -> Some OTrigger | 'a' -> Some (OAddActions (arg t)) | 's' -> Some (OSetActions (arg t))
+        | 'n' -> Some (OSetTasks (arg t)) | 't' -> Some (OAddTasks (arg t)) | _ -> None in
+      let s = List.fold_left (fun s t -> match op t with Some o -> cstep s o | None -> s) cinit ops in
+      let nch = List.length (children (z_of_int n) (z_of_int root) (z_of_int me)) in
+      Printf.sprintf "sig=%d sent=%d state=%d pa=%d" (int_of_nat s.c_sig) (int_of_nat s.c_sig * nch)
+        (match s.c_state with NotReady -> 1 | Busy -> 2 | Terminated -> 4) (int_of_z s.c_pa)
     | _ -> "<bad case>")
